@@ -267,6 +267,7 @@ class Block:
     ensures: list = field(default_factory=list)
     rewrites: list = field(default_factory=list)
     real_name: str | None = None
+    expand_or_guards: int = 0        # R10c: number of or-pattern+guard arms of the block's match to expand (0 = rule not applied)
 
 
 @dataclass
@@ -406,6 +407,103 @@ def extract_enum(repo: Path, unit: VUnit, e: Enum) -> str:
     return text
 
 
+def expand_or_guard_arms(body: str) -> tuple[str, int]:
+    """R10c: Verus rejects a match arm that has both an or-pattern and a guard.  `P1 | P2 if G => B` is rewritten to the arms
+    `P1 if G => B, P2 if G => B` (nested alternatives `C(X | Y)` expanded the same way): Rust tries the alternatives in order with the
+    same guard and body, so the expansion is the arm's meaning.  `body` is the inside of ONE match block; returns (text, arms expanded)."""
+    toks = [t for t in tokenize(body) if t[0] not in ("ws", "comment")]
+    out, pos, i, n_exp = [], 0, 0, 0
+    OPEN, CLOSE = "([{", ")]}"
+
+    def alts(p: str) -> list[str]:
+        ts = [t for t in tokenize(p) if t[0] not in ("ws", "comment")]
+        depth, cuts = 0, []
+        for t in ts:
+            if t[0] == "punct" and t[1] in OPEN:
+                depth += 1
+            elif t[0] == "punct" and t[1] in CLOSE:
+                depth -= 1
+            elif t[0] == "punct" and t[1] == "|" and depth == 0:
+                cuts.append((t[2], t[3]))
+        if cuts:
+            parts, a = [], 0
+            for c0, c1 in cuts:
+                parts.append(p[a:c0].strip())
+                a = c1
+            parts.append(p[a:].strip())
+            return [x for q in parts for x in alts(q)]
+        # nested: first parenthesised group holding a depth-1 `|`
+        depth, start = 0, None
+        for t in ts:
+            if t[0] == "punct" and t[1] == "(":
+                depth += 1
+                if depth == 1:
+                    start = t[3]
+            elif t[0] == "punct" and t[1] == ")":
+                depth -= 1
+                if depth == 0 and start is not None:
+                    inner = p[start:t[2]]
+                    sub = alts(inner)
+                    if len(sub) > 1:
+                        return [x for a_ in sub for x in alts(p[:start] + a_ + p[t[2]:])]
+        return [re.sub(r"\s+", " ", p.strip().rstrip(","))]
+
+    while i < len(toks):
+        arm_start = toks[i][2]
+        depth, j, if_at, arrow = 0, i, None, None
+        while j < len(toks):
+            t = toks[j]
+            if t[0] == "punct" and t[1] in OPEN:
+                depth += 1
+            elif t[0] == "punct" and t[1] in CLOSE:
+                depth -= 1
+            elif depth == 0 and t[0] == "ident" and t[1] == "if" and if_at is None:
+                if_at = j
+            elif depth == 0 and t[0] == "punct" and t[1] == "=" and j + 1 < len(toks) and toks[j + 1][1] == ">" and toks[j + 1][2] == t[3]:
+                arrow = j
+                break
+            j += 1
+        if arrow is None:
+            break
+        k = arrow + 2
+        if k < len(toks) and toks[k][1] == "{":
+            depth = 0
+            while k < len(toks):
+                if toks[k][1] == "{":
+                    depth += 1
+                elif toks[k][1] == "}":
+                    depth -= 1
+                    if depth == 0:
+                        break
+                k += 1
+            end = toks[k][3]
+            if k + 1 < len(toks) and toks[k + 1][1] == ",":
+                k += 1
+        else:
+            depth = 0
+            while k < len(toks) and not (depth == 0 and toks[k][1] == ","):
+                if toks[k][1] in OPEN:
+                    depth += 1
+                elif toks[k][1] in CLOSE:
+                    depth -= 1
+                k += 1
+            end = toks[k - 1][3] if k > arrow + 2 else toks[arrow + 1][3]
+        arm_end = toks[k][3] if k < len(toks) else len(body)
+        if if_at is not None:
+            pat = body[arm_start:toks[if_at][2]]
+            guard = body[toks[if_at][3]:toks[arrow][2]].strip()
+            arm_body = body[toks[arrow + 1][3]:end].strip()
+            a = alts(pat)
+            if len(a) > 1:
+                out.append(body[pos:arm_start])
+                out.append("".join(f"{x} if {guard} => {arm_body},\n" for x in a))
+                pos = arm_end
+                n_exp += 1
+        i = k + 1
+    out.append(body[pos:])
+    return "".join(out), n_exp
+
+
 def extract_block(repo: Path, unit: VUnit, b: Block) -> tuple[str, dict]:
     path = repo / (b.source or unit.source)
     src = path.read_text()
@@ -436,6 +534,11 @@ def extract_block(repo: Path, unit: VUnit, b: Block) -> tuple[str, dict]:
         if n:
             info["rewrites"].append(f"{rw.rule}: /{rw.pattern}/ -> '{rw.repl}' x{n}")
         body = new
+    if b.expand_or_guards:
+        body, n = expand_or_guard_arms(body)
+        if n < b.expand_or_guards:
+            raise LostAnchor(f"block {b.name}: R10c expanded {n} or-pattern+guard arm(s), expected >= {b.expand_or_guards}")
+        info["rewrites"].append(f"R10c: or-pattern+guard arms expanded x{n}")
     clauses = ""
     if b.requires:
         clauses += "\n    requires\n        " + ",\n        ".join(b.requires) + ","
